@@ -311,6 +311,9 @@ example : (codabarModules refTables [49]).map (fun m => cbDecodeRow refTables fa
 example : (codabarModules refTables [49, 50]).map (fun m => cbDecodeRow refTables false (paddedRow 0 1 1 m)) =
     .ok (.error .notFound) := by decide +kernel
 
+/-- non-vacuity of the three table hypotheses: the reference tables (= the regenerated ones, Obligations) satisfy them -/
+example : WF93Row refTables = true ∧ WF39Row refTables = true ∧ WFCbRow refTables = true := by decide +kernel
+
 /-! ## accepted reads verify (C10 clause, row level) -/
 
 /-- Clause (C10) "Readers never return a symbol whose check characters do not verify", on the Code 93 row-decoder
